@@ -3133,8 +3133,8 @@ def isin_for_indexed_string_field(test_elements, indices, values):
     if len(test_elements) == 0:
         return np.asarray([False] * (len(indices) - 1), dtype='bool')
 
-    # sort first
-    test_elements = np.sort(test_elements)
+    # sort first (Python's sort: a numpy unicode array would drop trailing NUL characters of the strings)
+    test_elements = sorted(test_elements)
     # convert string to an array of ascii code
     test_elements = nt.List([np.frombuffer(x.encode(), dtype=np.uint8) for x in test_elements])
     return isin_indexed_string_speedup(test_elements, indices, values)
